@@ -263,8 +263,26 @@ func Compare(exp *model.ExecResult, obs Obs, w *world.World, o CompareOpts) stri
 		}
 	}
 	if o.Strict {
+		fieldAt := map[string]string{}
+		for _, e := range exp.Calls {
+			fieldAt[e.Path] = e.Field
+		}
+		for _, tc := range w.TypeOfs {
+			if !tc.CtxOK {
+				return fmt.Sprintf("isTypeOf of %s at %q: context is not the caller's context", tc.Object, tc.Path)
+			}
+			if tc.ValueID != tc.Path && !strings.HasPrefix(tc.ValueID, tc.Path+"/") {
+				return fmt.Sprintf("isTypeOf of %s at %q received value %q", tc.Object, tc.Path, tc.ValueID)
+			}
+			if f, ok := fieldAt[tc.Path]; ok && f != tc.Field {
+				return fmt.Sprintf("isTypeOf of %s at %q: Info.FieldName = %q, expected %q", tc.Object, tc.Path, tc.Field, f)
+			}
+		}
 		seenT := map[string]bool{}
 		for _, tc := range w.Types {
+			if f, ok := fieldAt[tc.Path]; ok && f != tc.Field {
+				return fmt.Sprintf("type resolver of %s at %q: Info.FieldName = %q, expected %q", tc.Abstract, tc.Path, tc.Field, f)
+			}
 			if !tc.CtxOK {
 				return fmt.Sprintf("type resolver of %s at %q: context is not the caller's context", tc.Abstract, tc.Path)
 			}
